@@ -115,6 +115,11 @@ def _arr(x):
     return np.array(x)
 
 
+def _empty(a):
+    """marker for an empty array result (compares by shape; hx compares Raised markers by name)"""
+    return hx.Raised("Empty%s" % (tuple(a.shape),))
+
+
 def _shift(kind, v, d):
     """expected value at origin o+d given the value v observed at origin o"""
     if isinstance(v, hx.Raised) or v is None:
@@ -123,7 +128,7 @@ def _shift(kind, v, d):
         return _val(kind, v)
     a = _arr(v)
     if a.size == 0:
-        return "empty%s" % (a.shape,)
+        return _empty(a)
     if kind == "coord":       # (..., 2) array / (y, x) tuple
         if a.shape[-1:] != (2,):
             return hx.Raised("HarnessShape")
@@ -141,9 +146,9 @@ def _val(kind, v):
         return v
     if kind in ("coord", "extent"):
         a = _arr(v)
-        return a if a.size else "empty%s" % (a.shape,)
+        return a if a.size else _empty(a)
     if isinstance(hx.unwrap(v), np.ndarray) and hx.unwrap(v).size == 0:
-        return "empty%s" % (hx.unwrap(v).shape,)
+        return _empty(hx.unwrap(v))
     return v
 
 
@@ -188,6 +193,15 @@ def _origins(inp):
 
 def _sym_origin(ctx):
     return {"origin": [V.real("oy"), V.real("ox")], "shift": [V.real("dy"), V.real("dx")]}
+
+
+def _early_stop(ctx):
+    """called at the very start of a path: once three counterexample candidates (outside recorded findings) exist in this case,
+    stop exploring it (a seeded fault that makes pixel look-ups origin-dependent would otherwise fork over unboundedly many index
+    values).  Never taken on a tree without candidates, so it cannot turn a violation into a pass."""
+    from symx.explore import PathAbort
+    if sum(1 for c in ctx.stats.candidates if c.known is None) >= 3:
+        raise PathAbort()
 
 
 def _fork_mask(ctx, H, W):
@@ -369,6 +383,7 @@ def _geom_inputs(ctx, mask, H, W):
 
 
 def case_geometry(ctx, H, W, scales, kernel=(3, 3), sub=2, pad=(2, 1)):
+    _early_stop(ctx)
     mask = _fork_mask(ctx, H, W)
     ctx.set_case(mask=mask.tolist())
     _run(ctx, body_geometry, _geom_inputs(ctx, mask, H, W),
@@ -376,6 +391,7 @@ def case_geometry(ctx, H, W, scales, kernel=(3, 3), sub=2, pad=(2, 1)):
 
 
 def case_geometry_named(ctx, name, scales, kernel=(3, 3), sub=2, pad=(2, 1)):
+    _early_stop(ctx)
     mask = MASKS[name]
     H, W = mask.shape
     ctx.set_case(mask=mask.tolist())
@@ -416,6 +432,7 @@ def _bound_origin(ctx, inputs, scales, bound):
 
 
 def case_overlay(ctx, scales, shape, bound, name=None, H=None, W=None):
+    _early_stop(ctx)
     if name is not None:
         mask = MASKS[name]
         H, W = mask.shape
@@ -513,6 +530,7 @@ def body_dataset(inp, H, W, scales, sub, _keep=None):
 
 
 def case_dataset(ctx, scales, sub=2, name=None, H=None, W=None):
+    _early_stop(ctx)
     if name is not None:
         mask = MASKS[name]
         H, W = mask.shape
@@ -574,6 +592,7 @@ def body_points(inp, H, W, scales, N, cls, _keep=None):
 
 
 def case_points(ctx, H, W, scales, N=2, cls=False):
+    _early_stop(ctx)
     inputs = _sym_origin(ctx)
     rel = V.real_array("p", (N, 2))
     inputs["rel"] = rel
@@ -611,6 +630,7 @@ def body_radial(inp, H, W, scales, angle, _keep=None):
 
 
 def case_radial(ctx, H, W, scales, angle):
+    _early_stop(ctx)
     inputs = _sym_origin(ctx)
     cy, cx = V.real("cy"), V.real("cx")
     # centre (relative to the origin) strictly inside the extent
@@ -670,6 +690,7 @@ def body_mapper(inp, H, W, scales, sub, kind, mesh_shape, _keep=None):
 
 
 def case_mapper(ctx, scales, kind, sub=2, mesh_shape=(3, 3), name=None, H=None, W=None):
+    _early_stop(ctx)
     if name is not None:
         mask = MASKS[name]
         H, W = mask.shape
@@ -787,8 +808,8 @@ def cases(tier):
         if not quick:
             out.append(("case_geometry_named", {"name": name, "scales": SCALES[(n + 2) % len(SCALES)], "kernel": [3, 5], "sub": 3, "pad": [1, 4]}))
     # the overlay mesh forks on origin-dependent pixel indices while finding overlay-mesh-origin is open: few masks, bounded origin
-    out.append(("case_overlay", {"name": "ring5", "scales": [1.0, 1.0], "shape": [2, 2], "bound": 1.0}))
-    out.append(("case_overlay", {"name": "full3x3", "scales": [0.5, 2.0], "shape": [2, 2], "bound": 0.75}))
+    out.append(("case_overlay", {"name": "ring5", "scales": [1.0, 1.0], "shape": [2, 2], "bound": 1.0}, {"split": 3}))
+    out.append(("case_overlay", {"name": "full3x3", "scales": [0.5, 2.0], "shape": [2, 2], "bound": 0.75}, {"split": 2}))
     if not quick:
         out.append(("case_overlay", {"name": "blob6x7", "scales": [2.0, 0.25], "shape": [2, 3], "bound": 0.5}))
         out.append(("case_overlay", {"H": 2, "W": 2, "scales": [1.0, 1.0], "shape": [2, 2], "bound": 0.75}, {"split": 3}))
@@ -800,21 +821,21 @@ def cases(tier):
             ([] if quick else [(6, 7, (0.25, 0.5), 120.0), (2, 9, (3.0, 1.0), 45.0)]):
         out.append(("case_radial", {"H": H, "W": W, "scales": list(sc), "angle": ang}))
     for n, name in enumerate(["disc7", "ring5", "cross7", "edge4x6"] + ([] if quick else ["blob6x7", "two5x6", "full4x3"])):
-        out.append(("case_mapper", {"name": name, "scales": SCALES[(n + 1) % len(SCALES)], "kind": "rectangular", "mesh_shape": [3, 3] if n % 2 == 0 else [2, 4]}))
+        out.append(("case_mapper", {"name": name, "scales": SCALES[(n + 1) % len(SCALES)], "kind": "rectangular", "mesh_shape": [3, 3] if n % 2 == 0 else [3, 4]}))
     for n, name in enumerate(["disc7", "cross7"] + ([] if quick else ["blob6x7", "ring5", "full4x3"])):
         out.append(("case_mapper", {"name": name, "scales": SCALES[n % len(SCALES)], "kind": "delaunay"}))
     out.append(("case_mapper", {"H": 2, "W": 2, "scales": [0.5, 2.0], "kind": "rectangular", "mesh_shape": [3, 3]}))
     if not quick:
-        out.append(("case_mapper", {"H": 2, "W": 3, "scales": [1.0, 1.0], "kind": "rectangular", "mesh_shape": [2, 3]}, {"split": 2}))
+        out.append(("case_mapper", {"H": 2, "W": 3, "scales": [1.0, 1.0], "kind": "rectangular", "mesh_shape": [4, 3]}, {"split": 2}))
         out.append(("case_mapper", {"H": 2, "W": 3, "scales": [2.0, 0.25], "kind": "delaunay"}, {"split": 2}))
     for n, name in enumerate(["ring5", "edge4x6", "full4x3", "blob6x7"] + ([] if quick else ["disc7", "two5x6", "corner6", "row3x7"])):
         out.append(("case_dataset", {"name": name, "scales": SCALES[n % len(SCALES)]}))
     if not quick:
         out.append(("case_dataset", {"H": 2, "W": 3, "scales": [0.25, 0.5]}, {"split": 4}))
         out.append(("case_dataset", {"H": 3, "W": 3, "scales": [0.5, 2.0]}, {"split": 5}))
-    caps = [(H, W) for H in range(1, 4) for W in range(1, 4)]
+    caps = [(H, W) for H in range(1, 4) for W in range(1, 4) if H * W <= 6]
     if not quick:
-        caps += [(2, 4), (4, 2), (3, 4), (4, 3), (2, 5), (5, 2)]
+        caps += [(3, 3), (2, 4), (4, 2), (2, 5), (5, 2)]
     for n, (H, W) in enumerate(caps):
         cells = H * W
         out.append(("case_geometry", {"H": H, "W": W, "scales": SCALES[n % len(SCALES)]},
